@@ -7,28 +7,78 @@ open Orbit.Path
 
 variable {isCid : String → Bool} {H : String → String → List String → String}
 
-/-- a valid address goes straight to the checks of `openValid` -/
-theorem open_valid {s : St} {addr : String} {a : Addr} (o : Opts) (hp : parse isCid addr = some a) :
-    «open» isCid H s addr o = openValid s a o := by
+/-- the name test of `Open`: a manifest stored under the root of the address carries the name the
+address ends with -/
+def Named (isCid : String → Bool) (s : St) (a : Addr) : Prop :=
+  ∀ m, fetch s.net a.root = some m → named isCid a m = true
+
+theorem named_of_fetch {s : St} {a : Addr} {m0 : Manifest} (hf : fetch s.net a.root = some m0)
+    (hn : named isCid a m0 = true) : Named isCid s a := by
+  intro m hm
+  rw [hf] at hm
+  cases hm
+  exact hn
+
+theorem named_of_no_manifest {s : St} {a : Addr} (hf : fetch s.net a.root = none) : Named isCid s a := by
+  intro m hm
+  rw [hf] at hm
+  cases hm
+
+/-- a valid address whose manifest names it goes straight to the checks of `openValid` -/
+theorem open_valid {s : St} {addr : String} {a : Addr} (o : Opts) (hp : parse isCid addr = some a)
+    (hn : Named isCid s a) : «open» isCid H s addr o = openValid s a o := by
   unfold «open»
   rw [hp]
+  dsimp only
+  cases hf : fetch s.net a.root with
+  | none => rfl
+  | some m => simp [hn m hf]
+
+/-- a local-only `Open` of a database without local data never gets as far as the name test -/
+theorem open_valid_localonly {s : St} {addr : String} {a : Addr} (o : Opts) (hp : parse isCid addr = some a)
+    (hlo : o.localOnly = true) (hl : haveLocal s a = false) : «open» isCid H s addr o = openValid s a o := by
+  unfold «open»
+  rw [hp]
+  dsimp only
+  cases hf : fetch s.net a.root with
+  | none => rfl
+  | some m => simp [hlo, hl]
+
+/-- **an address whose path is not the name recorded in the manifest under its root is refused**,
+whatever the options (unless the local-only refusal comes first), and nothing changes -/
+theorem open_misnamed_refused (s : St) (addr : String) (o : Opts) (a : Addr) (m : Manifest)
+    (hp : parse isCid addr = some a) (hf : fetch s.net a.root = some m) (hn : named isCid a m = false)
+    (hlo : o.localOnly = false) : «open» isCid H s addr o = (.error .nameMismatch, s) := by
+  unfold «open»
+  rw [hp]
+  dsimp only
+  rw [hf]
+  simp [hn, hlo]
 
 /-- **`Open` of a valid address never changes the instance**: in particular it does NOT write the
 `_manifest` key, so it never makes `haveLocalData` true (U1) -/
 theorem open_keeps_state (s : St) (addr : String) (o : Opts) (a : Addr)
     (hp : parse isCid addr = some a) : («open» isCid H s addr o).2 = s := by
-  rw [open_valid o hp]
-  exact openValid_state s a o
+  unfold «open»
+  rw [hp]
+  dsimp only
+  cases hf : fetch s.net a.root with
+  | none => exact openValid_state s a o
+  | some m =>
+    dsimp only
+    split
+    · rfl
+    · exact openValid_state s a o
 
 /-- **a local-only `Open` of a database without local data is refused** and changes nothing,
 whatever IPFS holds and whatever the other options -/
 theorem open_unknown_localonly_refused (s : St) (addr : String) (o : Opts) (a : Addr)
     (hp : parse isCid addr = some a) (hl : a ∉ s.local) (hlo : o.localOnly = true) :
     «open» isCid H s addr o = (.error .notLocal, s) := by
-  rw [open_valid o hp]
-  unfold openValid
   have : haveLocal s a = false := by
     rw [← Bool.not_eq_true, haveLocal_iff]; exact hl
+  rw [open_valid_localonly o hp hlo this]
+  unfold openValid
   simp only [hlo, this, Bool.not_false, Bool.and_self, if_true]
 
 /-- an invalid address without `Create` is refused, nothing changes -/
@@ -70,9 +120,34 @@ itself with the type and write list of the manifest stored under its root** (nev
 theorem open_type_and_acl_are_the_recorded_ones (s : St) (addr : String) (o : Opts) (a : Addr)
     (out : Out) (hp : parse isCid addr = some a) (h : («open» isCid H s addr o).1 = .ok out) :
     ∃ m, fetch s.net a.root = some m ∧ out = (a, m.type, m.acl) := by
-  rw [open_valid o hp] at h
-  obtain ⟨m, hm, ho, _, _⟩ := openValid_ok h
+  have hv : (openValid s a o).1 = .ok out := by
+    unfold «open» at h
+    rw [hp] at h
+    dsimp only at h
+    cases hf : fetch s.net a.root with
+    | none => rw [hf] at h; exact h
+    | some m =>
+      rw [hf] at h
+      dsimp only at h
+      split at h
+      · cases h
+      · exact h
+  obtain ⟨m, hm, ho, _, _⟩ := openValid_ok hv
   exact ⟨m, hm, ho⟩
+
+/-- the address `DetermineAddress` gives for a name is named by every manifest that records that name -/
+theorem named_of_determine {h name : String} {a : Addr} (hc : isCid h = true) (hh : Seg h)
+    (hd : determine isCid h name = some a) (m : Manifest) (hm : m.name = name) :
+    named isCid a m = true := by
+  obtain ⟨_, hp0, hr⟩ := determine_some hd
+  have hpp := determine_parse_print hc hh hd
+  have hst : staysBelowRoot isCid a = true := by
+    unfold staysBelowRoot; rw [hpp]; simp
+  have hp : parse isCid (joinAddr h name) = some a := by
+    unfold parse; rw [hp0]; simp [hst]
+  unfold named
+  rw [hm, hr, hp]
+  simp
 
 /-- what a successful `Create` leaves behind -/
 theorem create_ok_state {s s' : St} {name ty : String} {o : Opts} {out : Out}
@@ -80,7 +155,7 @@ theorem create_ok_state {s s' : St} {name ty : String} {o : Opts} {out : Out}
     (h : create isCid H s name ty o = (.ok out, s')) :
     parse isCid (print out.1) = some out.1 ∧ out.1 ∈ s'.local ∧
     fetch s'.net out.1.root = some ⟨name, out.2.1, out.2.2⟩ ∧ s'.types.contains out.2.1 = true ∧
-    s'.types = s.types := by
+    s'.types = s.types ∧ (∀ m : Manifest, m.name = name → named isCid out.1 m = true) := by
   obtain ⟨a, hd⟩ := create_ok_determine (out := out) (by rw [h])
   obtain ⟨ht, hn, hdet⟩ := determineAddr_ok_fst hd
   rw [create_of ht hn hdet hc hs] at h
@@ -89,7 +164,8 @@ theorem create_ok_state {s s' : St} {name ty : String} {o : Opts} {out : Out}
   · injection h with h1 h2
     injection h1 with h1
     subst h1 h2
-    refine ⟨parse_print_of_parse0 (determine_parse_print hc hs hdet), (haveLocal_iff _ _).mp (haveLocal_addLocal _ a), ?_, ht, rfl⟩
+    refine ⟨parse_print_of_parse0 (determine_parse_print hc hs hdet), (haveLocal_iff _ _).mp (haveLocal_addLocal _ a), ?_, ht, rfl,
+      fun m hm => named_of_determine hc hs hdet m hm⟩
     show fetch (putNet s (recHash H s name ty o) ⟨name, ty, recAcl s o⟩).net a.root = _
     rw [determine_root hdet]
     exact fetch_putNet s _ _
@@ -109,12 +185,12 @@ theorem create_then_open_same (s s' : St) (name ty : String) (o : Opts) (a : Add
       «open» isCid H s2 (print a) o' = (.ok (a, ty', wl), s2)) ∧
     (∀ s2 o', a ∉ s2.local → o'.localOnly = true →
       «open» isCid H s2 (print a) o' = (.error .notLocal, s2)) := by
-  obtain ⟨hpp, hloc, hnet, hty, _⟩ := create_ok_state hc hs h
-  simp only at hpp hloc hnet hty
+  obtain ⟨hpp, hloc, hnet, hty, _, hnm⟩ := create_ok_state hc hs h
+  simp only at hpp hloc hnet hty hnm
   refine ⟨fun o' => ?_, fun s2 o' hf ht2 hlo => ?_, fun s2 o' hl hlo => ?_⟩
-  · rw [open_valid o' hpp]
+  · rw [open_valid o' hpp (fun m hm => hnm m (by rw [hnet] at hm; cases hm; rfl))]
     exact openValid_of (m := ⟨name, ty', wl⟩) (fun _ => hloc) hnet hty
-  · rw [open_valid o' hpp]
+  · rw [open_valid o' hpp (fun m hm => hnm m (by rw [hf, hnet] at hm; cases hm; rfl))]
     exact openValid_of (m := ⟨name, ty', wl⟩) (fun h => by rw [hlo] at h; cases h)
       (hf.trans hnet) (by simpa using ht2)
   · exact open_unknown_localonly_refused s2 (print a) o' a hpp hl hlo
